@@ -151,6 +151,26 @@ def auditFootprint (types rsaFamily startable gexAlgs : List Str) (kex keys : Li
   let gx := gexAll gexAlgs kex isOpenSSH gexAlgs hk.srv []
   hs :: hk.conns ++ gx.1
 
+/-! ### the initial handshake, including the one retry as SSH-1 -/
+
+/-- how the first connection goes: the audit proceeds to the probes, or the peer answers "Protocol major versions differ."
+    (then, if SSH-1 is enabled, the audit is repeated once as SSH-1 on a second connection and no probe follows) or it ends -/
+inductive HsOutcome where
+  | proceeds
+  | versionsDiffer (ssh1Enabled : Bool) (retryBanner : Bool)   -- does the second connection get as far as sending its KEXINIT?
+  | ends
+deriving Repr, DecidableEq
+
+def hsConn : Conn := { phase := .handshake, connected := true, sent := [msgKexinit], closed := true }
+
+/-- every connection of a server audit (rate check aside) -/
+def auditFootprintH (h : HsOutcome) (types rsaFamily startable gexAlgs : List Str) (kex keys : List Str) (isOpenSSH : Bool) (e : Env) : List Conn :=
+  match h with
+  | .proceeds => auditFootprint types rsaFamily startable gexAlgs kex keys isOpenSSH e
+  | .versionsDiffer true rb => [hsConn, { hsConn with sent := if rb then [msgKexinit] else [] }]
+  | .versionsDiffer false _ => [hsConn]
+  | .ends => [hsConn]
+
 /-! ### the connection-rate check (`DHEat._dh_rate_test`, non-interactive) -/
 
 /-- what happens in one pass of the rate loop: is time up, which connects succeed, which open sockets become
